@@ -147,6 +147,11 @@ pub fn make_config(mesh: u8, flood_publish: bool) -> gs::Config {
 
 /// as `make_config`; `validate` = the application validates messages before they are forwarded
 pub fn make_config_v(mesh: u8, flood_publish: bool, validate: bool) -> gs::Config {
+    config_builder(mesh, flood_publish, validate).build().expect("valid config")
+}
+
+/// the builder behind `make_config_v` (so that a check can add e.g. a message-id function)
+pub fn config_builder(mesh: u8, flood_publish: bool, validate: bool) -> gs::ConfigBuilder {
     let (omin, low, n, high) = mesh_params(mesh);
     let mut b = gs::ConfigBuilder::default();
     if validate {
@@ -167,7 +172,7 @@ pub fn make_config_v(mesh: u8, flood_publish: bool, validate: bool) -> gs::Confi
         .validation_mode(gs::ValidationMode::Permissive)
         .publish_queue_duration(TEN_YEARS)
         .forward_queue_duration(TEN_YEARS);
-    b.build().expect("valid config")
+    b
 }
 
 pub fn score_params() -> (gs::PeerScoreParams, gs::PeerScoreThresholds) {
